@@ -58,7 +58,7 @@ def configs(tier, seed):
 
 
 def _patched(env):
-    fa = load.patch("file_accessor", pathlib=env.pathlib, os=env.os, gzip=env.gzip)
+    fa = load.patch("file_accessor", pathlib=env.pathlib, os=env.os, gzip=env.gzip, open=env.open)
     return fa
 
 
